@@ -4,7 +4,9 @@ pub mod c03;
 pub mod c04;
 pub mod c05;
 pub mod c06;
+pub mod c07;
 pub mod c08;
+pub mod c09;
 pub mod c11;
 pub mod c17;
 
@@ -17,7 +19,9 @@ pub fn dispatch(ctx: &Ctx) -> i32 {
         "C04" => c04::run(ctx),
         "C05" => c05::run(ctx),
         "C06" => c06::run(ctx),
+        "C07" => c07::run(ctx),
         "C08" => c08::run(ctx),
+        "C09" => c09::run(ctx),
         "C11" => c11::run(ctx),
         "C17" => c17::run(ctx),
         other => {
